@@ -298,7 +298,7 @@ def oracle_network(case, rec):
             continue
         meth = _base(name)
         # ARPACK (eigsh, tol=1e-8 on the eigenvalue): vectors agree to ~1e-5
-        tol = 1e-4 if "eigenvector" in name else 1e-9
+        tol = 1e-6 if "eigenvector" in name else 1e-9
         if "newman" in name or "arenas" in name:
             tol = 1e-7
         oka, a = rec.call(name + "_raises", getattr(net, meth), **kw)
@@ -325,7 +325,7 @@ def oracle_network(case, rec):
             okb, b = rec.call(name + "_dir_raises_split", getattr(net2, meth),
                               allowed=(NotImplementedError, AssertionError), **kw)
             if oka and okb and a is not None and b is not None:
-                compare(rec, name + "_dir", kind, a, b, parents, 1e-9)
+                compare(rec, "dir_" + name, kind, a, b, parents, 1e-9)
 
 
 def oracle_interacting(case, rec):
